@@ -426,12 +426,12 @@ def lambda_param_range(F, res):
 # (sees local binders, innermost first), 'toplevel' = module scope only
 RESOLVER_TABLE = {
     ("ide::def::hir::Import::definition", 0): ("toplevel", "an imported name is looked up in the exporting module's scope"),
-    ("ide::def::scope::dependency_order_query::{closure#0}", 0): ("expr", "a variable in a function body: a parameter or let binder shadows a top-level function of the same name"),
+    ("ide::def::scope::dependency_order_query", 0): ("expr", "a variable in a function body: a parameter or let binder shadows a top-level function of the same name"),
     ("ide::def::semantics::Semantics::resolve_nameref", 0): ("toplevel", "`module.name`: the name is looked up in the scope of the module named by the qualifier"),
     ("ide::def::semantics::Semantics::resolve_nameref", 1): ("expr", "an unqualified name in an expression: resolved with the SourceAnalyzer built for that node"),
     ("ide::ty::infer::InferCtx::infer_expr_inner", 0): ("expr", "Expr::Variable: locals shadow module items"),
     ("ide::ty::infer::InferCtx::infer_expr_inner", 1): ("toplevel", "`module.name` field access: looked up in the other module's scope"),
-    ("ide::ty::infer::InferCtx::infer_pattern::{closure#0}", 0): ("toplevel", "`module.Variant` pattern: looked up in the other module's scope"),
+    ("ide::ty::infer::InferCtx::infer_pattern", 0): ("toplevel", "`module.Variant` pattern: looked up in the other module's scope"),
     ("ide::ty::infer::InferCtx::resolve_variant", 0): ("toplevel", "constructor names are capitalised and cannot be local binders; the function's module scope is used"),
 }
 
@@ -463,25 +463,37 @@ def resolver_kind(F, f, d, op):
 
 
 def resolver_provenance(F, res, only=None, rule="S4"):
+    """keys are (enclosing item, ordinal among the resolve_name call sites of the item and its closures): closures are
+    not named in the key, so adding or removing an unrelated closure does not move a reviewed entry"""
+    import re as _re
     n = 0
+    roots = {}
     for p_, f in sorted(F.fns.items()):
         if not p_.startswith(("ide::", "<ide::")) or not f.blocks:
             continue
-        sites = [(b, t) for b, t in f.calls() if callee(t) == "ide::def::resolver::Resolver::resolve_name"]
-        if not sites or (only and not p_.startswith(only)):
+        if any(callee(t) == "ide::def::resolver::Resolver::resolve_name" for b, t in f.calls()):
+            roots.setdefault(_re.sub(r"(::\{closure#\d+\})+$", "", p_), []).append(p_)
+    for root, members in sorted(roots.items()):
+        if only and not root.startswith(only):
             continue
-        d = FL.Defs(f)
-        for i, (b, t) in enumerate(sites):
-            n += 1
-            kind = resolver_kind(F, f, d, t["args"][0])
-            want = RESOLVER_TABLE.get((p_, i))
-            if want is None:
-                res.ob(rule, "resolver/%s/%d" % (p_, i), "this name lookup uses the right kind of resolver", False, where=f.loc(t["ln"]),
-                       how="new resolve_name call site (resolver: %s) that is not in the reviewed table" % kind)
-                continue
-            res.ob(rule, "resolver/%s/%d" % (p_, i), "this name lookup uses a resolver that sees %s (%s)" % (
-                "the local binders in scope" if want[0] == "expr" else "the module scope", want[1]), kind == want[0], where=f.loc(t["ln"]),
-                how="resolver comes from %s" % kind, reviewed=(kind == want[0]))
+        i = -1
+        for p_ in sorted(members):
+            f = F.fns[p_]
+            d = FL.Defs(f)
+            for b, t in f.calls():
+                if callee(t) != "ide::def::resolver::Resolver::resolve_name":
+                    continue
+                i += 1
+                n += 1
+                kind = resolver_kind(F, f, d, t["args"][0])
+                want = RESOLVER_TABLE.get((root, i))
+                if want is None:
+                    res.ob(rule, "resolver/%s/%d" % (root, i), "this name lookup uses the right kind of resolver", False, where=f.loc(t["ln"]),
+                           how="new resolve_name call site (resolver: %s) that is not in the reviewed table" % kind)
+                    continue
+                res.ob(rule, "resolver/%s/%d" % (root, i), "this name lookup uses a resolver that sees %s (%s)" % (
+                    "the local binders in scope" if want[0] == "expr" else "the module scope", want[1]), kind == want[0], where=f.loc(t["ln"]),
+                    how="resolver comes from %s" % kind, reviewed=(kind == want[0]))
     res.floor("resolve_name call sites in crate ide", n, 8 if not only else 1)
 
 
